@@ -101,6 +101,11 @@ impl Prop for C17Prop {
         match fe {
             Fe::Push => {
                 l.ops = { let k = rng.below(4); gen::gen_push_ops(rng, len, k) };
+                if buf == BufKind::Vec && rng.chance(1, 3) {
+                    // memory pressure: a failed reservation rejects the frame in flight, and the
+                    // rejected range must still be accounted for
+                    l.alloc_fail = rng.range(1, 12) as u64;
+                }
             }
             Fe::RdIo => {
                 l.src = gen::gen_src_faults_upto(rng, len, 5,
@@ -135,7 +140,7 @@ impl Prop for C17Prop {
         let (obs, tiling) = match l.fe {
             Fe::Push => {
                 let ops: Vec<(usize, PushOp)> = l.ops.iter().filter(|(_, o)| !matches!(o, PushOp::Probe(_))).cloned().collect();
-                (fe::drive_push_kind(l.buf, stream, &ops, 0, true), true)
+                (fe::drive_push_kind(l.buf, stream, &ops, l.alloc_fail, true), true)
             }
             Fe::Streaming => (mark_final(&fe::drive_streaming_kind(l.buf, stream, l.extra_polls)), true),
             _ => {
